@@ -267,7 +267,7 @@ static void exec_op(int idx, OpLine *o)
             /* kalign() returns one row per non-empty input sequence; the caller knows how many that is */
             int nout = 0;
             for (int i = 0; i < n; i++) if (lens[i] > 0) nout++;
-            for (int i = 0; i < nout; i++) { fprintf(g_out, "o %d row%d ", idx, i); emit_hex(g_out, aligned[i], strlen(aligned[i])); fputc('\n', g_out); }
+            for (int i = 0; i < nout; i++) { fprintf(g_out, "o %d row%d ", idx, i); emit_hex(g_out, aligned[i], alen > 0 ? (size_t)alen : 0); fputc('\n', g_out); }   /* rows are out_aln_len long by contract (a residue byte may be NUL) */
             for (int i = 0; i < nout; i++) free(aligned[i]);
             free(aligned);
         }
